@@ -41,8 +41,8 @@ var rules = []*Rule{
 	}},
 	{ID: "R22", Title: "SEGMENT-TYPESTATE: no use of a segment after its files were removed", Props: []string{"C12", "C01"}, Run: ruleR22},
 	{ID: "R23", Title: "MULTI-DRIVER ACCOUNTING: a round's deletions are reported", Props: []string{"C12"}, Run: ruleR23},
-	{ID: "R17", Title: "OFFSET-ASSIGNMENT", Props: []string{"C02", "C01"}, Run: func(p *Prog) []Ob {
-		return append(append(append(ruleR17(p), p.tailSurvivedObligations()...), p.rolloverFromNonEmpty()...), p.nextOffsetFromTheHead()...)
+	{ID: "R17", Title: "OFFSET-ASSIGNMENT", Props: []string{"C02", "C01", "C03"}, Run: func(p *Prog) []Ob {
+		return append(append(append(ruleR17(p), p.tailSurvivedObligations()...), p.rolloverFromNonEmpty()...), append(p.nextOffsetFromTheHead(), p.nextOffsetIsNotACount()...)...)
 	}},
 	{ID: "R5", Title: "INUSE: the unload refcount protocol", Props: []string{"C08", "C19"}, Run: ruleR5},
 	{ID: "R18", Title: "SNAPSHOT-REVALIDATION", Props: []string{"C08", "C12", "C03", "C15"}, Run: func(p *Prog) []Ob {
@@ -64,7 +64,7 @@ var rules = []*Rule{
 	{ID: "R30", Title: "CLOCK-INDEPENDENCE", Props: []string{"C03", "C04", "C09", "C10", "C13", "C02"}, Run: func(p *Prog) []Ob { return append(ruleR30(p), p.timeIdentity()...) }},
 	{ID: "R32", Title: "LAZY-LOG", Props: []string{"C14"}, Run: func(p *Prog) []Ob { return append(ruleR32(p), p.openIsLazy()...) }},
 	{ID: "R33", Title: "TIME-VERBATIM", Props: []string{"C01", "C10"}, Run: ruleR33},
-	{ID: "R34", Title: "SEGMENT-IDENTITY", Props: []string{"C01", "C12"}, Run: ruleR34},
+	{ID: "R34", Title: "SEGMENT-IDENTITY", Props: []string{"C01", "C12", "C20"}, Run: func(p *Prog) []Ob { return append(ruleR34(p), p.dirIsNotAPrefix()...) }},
 	{ID: "R35", Title: "LOOKUP-OUTCOMES", Props: []string{"C04", "C09", "C10", "C03", "C08"}, Run: func(p *Prog) []Ob { return append(ruleR35(p), p.queryDecisionBasis()...) }},
 	{ID: "R36", Title: "BOUNDARY-HAND-OFF and INDEX-WRAPPERS", Props: []string{"C10", "C09", "C04", "C03", "C13"}, Run: func(p *Prog) []Ob {
 		return append(append(append(ruleR36(p), p.indexWrappers()...), p.statFresh()...), append(p.siblingOutcomes(), p.cursorSiblings()...)...)
